@@ -179,12 +179,21 @@ def run_case(case, ctx):
         strata.add('irregular')
     strata |= strata_extra
 
+    nopen = [0]
+
     def open_reader(backend, preload):
         if backend == 'local':
             h = monitors.MonFile(path)
         else:
             h = monitors.FakeBlob(path)
-        r = SgzReader(h, preload=preload)
+        # the writers of the package are readers too (subclasses with the same constructor arguments): same costs
+        import zlib
+        from seismic_zfp.conversion import SgzConverter
+        from seismic_zfp.cropping import SgzCropper
+        cls = [SgzReader, SgzReader, SgzConverter, SgzCropper][(zlib.crc32(case['id'].encode()) + nopen[0]) % 4]
+        nopen[0] += 1
+        strata.add('reader-class:' + cls.__name__)
+        r = cls(h, preload=preload)
         return h, r
 
     def expected_extra(op):
@@ -441,7 +450,7 @@ def run_case(case, ctx):
 
 def finalize(tier, cases, results, counters, strata):
     reasons = []
-    for s in ['layout:default', 'layout:zslice', 'layout:general', 'layout:2d', 'irregular', 'preload',
+    for s in ['layout:default', 'layout:zslice', 'layout:general', 'layout:2d', 'irregular', 'preload', 'reader-class:SgzConverter', 'reader-class:SgzCropper',
               'backend:local', 'backend:blob', 'shared-array-value:zero', 'shared-array-value:nonzero', 'compound-calls']:
         if s not in strata:
             reasons.append('required stratum not hit: ' + s)
